@@ -4,6 +4,9 @@
 package main
 
 /*@
+; a response counts as a success when its status is 2xx (the handlers use 200; any other 2xx would be a success for a client, too)
+(macro (ok2xx st) (and (>= st 200) (<= st 299)))
+
 ; ============================ web sessions (C07) ============================================
 
 (spec (boolstr (b Bool)) String (ite b "true" "false"))
@@ -183,7 +186,7 @@ package main
     (requires exact-credentials (and (= $1 (callresult "(*net/http.Request).BasicAuth" 0 0))
                                      (= $2 (callresult "(*net/http.Request).BasicAuth" 0 1))
                                      (callresult "(*net/http.Request).BasicAuth" 0 2))))
-  (ensures accept-iff-store-accepts (= (= (select hstatus w) 200)
+  (ensures accept-iff-store-accepts (= (ok2xx (select hstatus w))
       (and (callresult "(*net/http.Request).BasicAuth" 0 2)
            (called "(*main.Store).Authenticate" 0)
            (callresult "(*main.Store).Authenticate" 0 0)
@@ -203,15 +206,15 @@ package main
         (callresult "(*main.Store).Authenticate" 0 0) (= (callresult "(*main.Store).Authenticate" 0 3) nil)))
     (requires names-that-user (and (= $1 (. (local reqdata) Username))
                                    (= $2 (callresult "(*main.Store).Authenticate" 0 1)))))
-  (ensures accept-only-if-store-accepts (=> (= (select hstatus w) 200)
+  (ensures accept-only-if-store-accepts (=> (ok2xx (select hstatus w))
       (and (called "(*main.Store).Authenticate" 0) (callresult "(*main.Store).Authenticate" 0 0)
            (= (callresult "(*main.Store).Authenticate" 0 3) nil)
            (called "(*main.webSessionFactory).Generate" 0) (= (callresult "(*main.webSessionFactory).Generate" 0 0) 200))))
   (ensures store-accepts-implies-accept (=> (and (called "(*main.Store).Authenticate" 0) (callresult "(*main.Store).Authenticate" 0 0)
                                                  (= (callresult "(*main.Store).Authenticate" 0 3) nil)
                                                  (= (callresult "(*main.webSessionFactory).Generate" 0 0) 200))
-                                            (= (select hstatus w) 200)))
-  (ensures token-only-on-success (=> (not (= (select hstatus w) 200)) (= issued (old issued))))
+                                            (ok2xx (select hstatus w))))
+  (ensures token-only-on-success (=> (not (ok2xx (select hstatus w))) (= issued (old issued))))
   (ensures responded-once (= (select hwrites w) (+ 1 (select (old hwrites) w)))))
 */
 /*@
@@ -225,9 +228,9 @@ package main
     (requires admin-session (and (called "(*main.webSessionFactory).Check" 0) (= (callresult "(*main.webSessionFactory).Check" 0 0) 200) (callresult "(*main.webSessionFactory).Check" 0 3)))
     (requires nonempty-fields (and (not (= (. (local reqdata) Username) "")) (not (= (. (local reqdata) Password) ""))))
     (requires arguments-from-request (and (= $1 (. (local reqdata) Username)) (= $2 (. (local reqdata) Password)) (= $3 (. (local reqdata) IsAdmin)))))
-  (ensures success-only-if-done (=> (= (select hstatus w) 200)
+  (ensures success-only-if-done (=> (ok2xx (select hstatus w))
       (and (called "(*main.Store).Add" 0) (= (callresult "(*main.Store).Add" 0 0) nil))))
-  (ensures done-implies-success (=> (and (called "(*main.Store).Add" 0) (= (callresult "(*main.Store).Add" 0 0) nil)) (= (select hstatus w) 200)))
+  (ensures done-implies-success (=> (and (called "(*main.Store).Add" 0) (= (callresult "(*main.Store).Add" 0 0) nil)) (ok2xx (select hstatus w))))
   (ensures responded-once (= (select hwrites w) (+ 1 (select (old hwrites) w)))))
 
 (func "main.handleWebRemove"
@@ -240,9 +243,9 @@ package main
     (requires admin-session (and (called "(*main.webSessionFactory).Check" 0) (= (callresult "(*main.webSessionFactory).Check" 0 0) 200) (callresult "(*main.webSessionFactory).Check" 0 3)))
     (requires nonempty-fields (not (= (. (local reqdata) Username) "")))
     (requires arguments-from-request (= $1 (. (local reqdata) Username))))
-  (ensures success-only-if-done (=> (= (select hstatus w) 200)
+  (ensures success-only-if-done (=> (ok2xx (select hstatus w))
       (and (called "(*main.Store).Remove" 0) (= (callresult "(*main.Store).Remove" 0 0) nil))))
-  (ensures done-implies-success (=> (and (called "(*main.Store).Remove" 0) (= (callresult "(*main.Store).Remove" 0 0) nil)) (= (select hstatus w) 200)))
+  (ensures done-implies-success (=> (and (called "(*main.Store).Remove" 0) (= (callresult "(*main.Store).Remove" 0 0) nil)) (ok2xx (select hstatus w))))
   (ensures responded-once (= (select hwrites w) (+ 1 (select (old hwrites) w)))))
 
 (func "main.handleWebSetAdmin"
@@ -255,9 +258,9 @@ package main
     (requires admin-session (and (called "(*main.webSessionFactory).Check" 0) (= (callresult "(*main.webSessionFactory).Check" 0 0) 200) (callresult "(*main.webSessionFactory).Check" 0 3)))
     (requires nonempty-fields (not (= (. (local reqdata) Username) "")))
     (requires arguments-from-request (and (= $1 (. (local reqdata) Username)) (= $2 (. (local reqdata) IsAdmin)))))
-  (ensures success-only-if-done (=> (= (select hstatus w) 200)
+  (ensures success-only-if-done (=> (ok2xx (select hstatus w))
       (and (called "(*main.Store).SetAdmin" 0) (= (callresult "(*main.Store).SetAdmin" 0 0) nil))))
-  (ensures done-implies-success (=> (and (called "(*main.Store).SetAdmin" 0) (= (callresult "(*main.Store).SetAdmin" 0 0) nil)) (= (select hstatus w) 200)))
+  (ensures done-implies-success (=> (and (called "(*main.Store).SetAdmin" 0) (= (callresult "(*main.Store).SetAdmin" 0 0) nil)) (ok2xx (select hstatus w))))
   (ensures responded-once (= (select hwrites w) (+ 1 (select (old hwrites) w)))))
 
 (func "main.handleWebList"
@@ -270,16 +273,16 @@ package main
     (requires admin-session (and (called "(*main.webSessionFactory).Check" 0) (= (callresult "(*main.webSessionFactory).Check" 0 0) 200) (callresult "(*main.webSessionFactory).Check" 0 3)))
     (requires nonempty-fields true)
     (requires arguments-from-request true))
-  (ensures success-only-if-done (=> (= (select hstatus w) 200)
+  (ensures success-only-if-done (=> (ok2xx (select hstatus w))
       (and (called "(*main.Store).List" 0) (= (callresult "(*main.Store).List" 0 1) nil))))
-  (ensures done-implies-success (=> (and (called "(*main.Store).List" 0) (= (callresult "(*main.Store).List" 0 1) nil)) (= (select hstatus w) 200)))
+  (ensures done-implies-success (=> (and (called "(*main.Store).List" 0) (= (callresult "(*main.Store).List" 0 1) nil)) (ok2xx (select hstatus w))))
   (ensures responded-once (= (select hwrites w) (+ 1 (select (old hwrites) w))))
   (callsite "main.sendWebResponse" *
     (requires list-only-to-admin-session (=> (not (= (. (boxed $2) List) nil))
         (and (called "(*main.webSessionFactory).Check" 0) (= (callresult "(*main.webSessionFactory).Check" 0 0) 200)
              (callresult "(*main.webSessionFactory).Check" 0 3)
              (called "(*main.Store).List" 0) (= (. (boxed $2) List) (callresult "(*main.Store).List" 0 0)))))
-    (requires success-carries-store-list (=> (= $1 200) (and (called "(*main.Store).List" 0) (= (. (boxed $2) List) (callresult "(*main.Store).List" 0 0)))))))
+    (requires success-carries-store-list (=> (ok2xx $1) (and (called "(*main.Store).List" 0) (= (. (boxed $2) List) (callresult "(*main.Store).List" 0 0)))))))
 
 (func "main.handleWebListFull"
   (props C06)
@@ -291,16 +294,16 @@ package main
     (requires admin-session (and (called "(*main.webSessionFactory).Check" 0) (= (callresult "(*main.webSessionFactory).Check" 0 0) 200) (callresult "(*main.webSessionFactory).Check" 0 3)))
     (requires nonempty-fields true)
     (requires arguments-from-request true))
-  (ensures success-only-if-done (=> (= (select hstatus w) 200)
+  (ensures success-only-if-done (=> (ok2xx (select hstatus w))
       (and (called "(*main.Store).ListFull" 0) (= (callresult "(*main.Store).ListFull" 0 1) nil))))
-  (ensures done-implies-success (=> (and (called "(*main.Store).ListFull" 0) (= (callresult "(*main.Store).ListFull" 0 1) nil)) (= (select hstatus w) 200)))
+  (ensures done-implies-success (=> (and (called "(*main.Store).ListFull" 0) (= (callresult "(*main.Store).ListFull" 0 1) nil)) (ok2xx (select hstatus w))))
   (ensures responded-once (= (select hwrites w) (+ 1 (select (old hwrites) w))))
   (callsite "main.sendWebResponse" *
     (requires list-only-to-admin-session (=> (not (= (. (boxed $2) List) nil))
         (and (called "(*main.webSessionFactory).Check" 0) (= (callresult "(*main.webSessionFactory).Check" 0 0) 200)
              (callresult "(*main.webSessionFactory).Check" 0 3)
              (called "(*main.Store).ListFull" 0) (= (. (boxed $2) List) (callresult "(*main.Store).ListFull" 0 0)))))
-    (requires success-carries-store-list (=> (= $1 200) (and (called "(*main.Store).ListFull" 0) (= (. (boxed $2) List) (callresult "(*main.Store).ListFull" 0 0)))))))
+    (requires success-carries-store-list (=> (ok2xx $1) (and (called "(*main.Store).ListFull" 0) (= (. (boxed $2) List) (callresult "(*main.Store).ListFull" 0 0)))))))
 
 (func "main.handleWebUpdate"
   (props C06 C12)
@@ -321,11 +324,11 @@ package main
     (requires exactly-one-credential (not (= (= (. (local reqdata) Session) "") (= (. (local reqdata) OldPassword) ""))))
     (requires arguments-from-request (and (= $1 (. (local reqdata) Username)) (= $2 (. (local reqdata) NewPassword))
                                           (not (= $1 "")) (not (= $2 "")))))
-  (ensures success-only-if-authorised (=> (= (select hstatus w) 200)
+  (ensures success-only-if-authorised (=> (ok2xx (select hstatus w))
       (or (and (called "(*main.Store).Update" 0) (= (callresult "(*main.Store).Update" 0 0) nil))
           (and (not (called "(*main.Store).Update" 0)) (called "(*main.Store).Authenticate" 0) (callresult "(*main.Store).Authenticate" 0 0) (= (callresult "(*main.Store).Authenticate" 0 3) nil)
                (= (. (local reqdata) NewPassword) "")))))
-  (ensures done-implies-success (=> (and (called "(*main.Store).Update" 0) (= (callresult "(*main.Store).Update" 0 0) nil)) (= (select hstatus w) 200)))
+  (ensures done-implies-success (=> (and (called "(*main.Store).Update" 0) (= (callresult "(*main.Store).Update" 0 0) nil)) (ok2xx (select hstatus w))))
   (ensures responded-once (= (select hwrites w) (+ 1 (select (old hwrites) w)))))
 */
 
